@@ -9,7 +9,7 @@ from ..progprop import ProgramProperty
 class C01(ProgramProperty):
     id = "C01"
     theorems = ["C01_parse_none", "C01_parse_some", "C01_parse_longest", "C01_compress", "C01_isUri",
-                "C01_unique_answer", "C01_perm", "C01_incremental"]
+                "C01_unique_answer", "C01_perm", "C01_incremental", "C01_trie"]
     lean_modules = ["CuriesVerif.Properties.C01", "CuriesVerif.Properties.C09"]
     rule = ("one case = one overlap-lattice record collection (nested / sibling / identical-up-to-one-symbol URI "
             "prefixes, synonyms nested in other records' prefixes, '' in ~12%, delimiters : / :: _ | -:) built four "
@@ -44,10 +44,11 @@ class C01(ProgramProperty):
                 steps.append(q(c, "parse_uri", u))
                 steps.append(q(c, "compress", u))
                 steps.append(q(c, "is_uri", u))
+                steps.append(q(c, "trie_lpi", u))      # the trie object itself: pytrie against Model/Trie.lean
         # fourth build: a long-lived converter that is queried, extended, and queried again
         qs3 = []
         for u in probes:
-            qs3 += [q(3, "parse_uri", u), q(3, "compress", u), q(3, "is_uri", u)]
+            qs3 += [q(3, "parse_uri", u), q(3, "compress", u), q(3, "is_uri", u), q(3, "trie_lpi", u)]
         more, how = gen.build_steps(rng, recs, delim, qs3, slot=3, p_incremental=1.0)
         steps += more
         us = gen.all_uris(recs)
